@@ -80,6 +80,7 @@ def run(ctx):
                 check_physics(ctx, fn, m, a, impl, kw)
         check_optional_angles(ctx, m, kw, model)
         check_material_reuse(ctx, m, model)
+        check_exact_critical(ctx, m, kw, model)
         # helpers: all triples, both units
         for kind, mi, mo in (("fluid_solid", "L", "L"), ("fluid_solid", "L", "T"), ("solid_fluid", "L", "L"), ("solid_fluid", "T", "L")):
             c_inc = m["cF"] if kind == "fluid_solid" else (m["cL"] if mi == "L" else m["cT"])
@@ -283,6 +284,40 @@ def check_optional_angles(ctx, m, kw, model):
                             ctx.violate(f"{name} with {list(sub)} supplied (Snell angles) differs from the call that refracts by itself (call {rep + 1})", cj,
                                         {"kind": "optional_angles", "fn": name})
                             break
+
+
+def check_exact_critical(ctx, m, kw, model):
+    """exactly on a critical angle (the value `arcsin(c_inc / c)` a user computes), real and complex dtype: the refracted
+    angle is pi/2 (its sine is the velocity ratio times the incident sine), every coefficient is finite, and the energy balance
+    holds — the boundary case between the sub- and post-critical regimes belongs to the quantifier"""
+    table = (("fluid_solid", model.fluid_solid, m["cF"]), ("solid_l_fluid", model.solid_l_fluid, m["cL"]), ("solid_t_fluid", model.solid_t_fluid, m["cT"]))
+    for name, fn, c_inc in table:
+        for c in (m["cL"], m["cT"], m["cF"]):
+            if c <= c_inc:
+                continue
+            crit = float(np.arcsin(c_inc / c))
+            for a in (crit, float(np.nextafter(crit, 0)), float(np.nextafter(crit, 4))):
+                for cplx in (False, True):
+                    ang = np.asarray(complex(a) if cplx else a)
+                    cj = {"op": "exact_critical", "fn": name, "media": m, "angle": a, "critical_angle_of_velocity": c, "complex": cplx}
+                    ctx.case(("crit", name, a, cplx), True)
+                    ctx.count("exact_critical:" + ("complex" if cplx else "real"))
+                    with np.errstate(all="ignore"):
+                        refr = np.asarray(model.snell_angles(ang, c_inc, c))
+                        coefs = [complex(x) for x in fn(ang, **kw)]
+                    s_ = complex(np.sin(refr))
+                    want = c / c_inc * np.sin(a)
+                    if not np.isfinite(s_) and (cplx or want <= 1.0):   # real dtype: one ulp above 1 has no real arcsine
+                        ctx.violate(f"snell_angles at the critical angle {a!r} ({'complex' if cplx else 'real'} dtype) is not finite although the refracted sine is {want!r} <= 1", cj, {"kind": "exact_critical"})
+                        continue
+                    if np.isfinite(s_) and abs(s_ - want) > 1e-7 * max(1.0, abs(want)):
+                        ctx.violate(f"snell_angles at the critical angle: sin(refracted) = {s_}, Snell's law gives {want}", cj, {"kind": "exact_critical"})
+                    # real dtype beyond the critical angle legitimately gives NaN (no real refracted angle); at or below it, and
+                    # for complex dtype everywhere, the coefficients are finite
+                    others = {"fluid_solid": (m["cL"], m["cT"]), "solid_l_fluid": (m["cF"], m["cT"]), "solid_t_fluid": (m["cF"], m["cL"])}[name]
+                    must_be_finite = cplx or all(c2 / c_inc * np.sin(a) <= 1.0 for c2 in others)
+                    if must_be_finite and not all(np.isfinite(x) for x in coefs):
+                        ctx.violate(f"{name} at the critical angle {a!r} ({'complex' if cplx else 'real'} dtype): coefficients {coefs} are not finite", cj, {"kind": "exact_critical"})
 
 
 def check_material_reuse(ctx, m, model):
